@@ -255,6 +255,9 @@ class Resolver:
     # ---------------------------------------------------------------- expressions
     def term(self, e: ast.AST, node: Node) -> Term:
         if isinstance(e, ast.Name):
+            bound = getattr(self, "_comp_bound", None)
+            if bound and e.id in bound:
+                return bound[e.id]
             return self.name_term(e.id, node)
         if isinstance(e, ast.Constant):
             return ("const", e.value)
@@ -282,6 +285,9 @@ class Resolver:
             kwargs = tuple(sorted(kw))
             if kwargs:
                 args, kwargs = self._positional(func, args, kwargs)
+            if func == ("global", "getattr") and len(args) == 2 and not kwargs and args[1][0] == "const" and isinstance(args[1][1], str) \
+                    and args[1][1].isidentifier():
+                return ("attr", args[0], args[1][1])  # getattr(x, "name") is x.name
             return ("call", func, tuple(args), kwargs)
         if isinstance(e, ast.BinOp):
             return ("binop", binop_symbol(e.op), self.term(e.left, node), self.term(e.right, node))
@@ -333,6 +339,37 @@ class Resolver:
             import ast as _ast
 
             return ("filtered", base, " and ".join(_ast.unparse(c) for c in g.ifs))
+        if isinstance(e, (ast.ListComp, ast.GeneratorExp)) and len(e.generators) == 1 and isinstance(e.generators[0].target, ast.Name) \
+                and not e.generators[0].is_async and not e.generators[0].ifs:
+            # (f(v) for v in X): the elements of X, in order, each mapped by f - f is expressed on elem<X>
+            g = e.generators[0]
+            base = self.term(g.iter, node)
+            old = getattr(self, "_comp_bound", None)
+            self._comp_bound = dict(old or {})
+            self._comp_bound[g.target.id] = ("elem", base)
+            try:
+                body = self.term(e.elt, node)
+            except AnalysisError:
+                body = None
+            finally:
+                self._comp_bound = old
+            if body is not None:
+                return ("mapped", base, body)
+        if isinstance(e, ast.DictComp) and len(e.generators) == 1 and isinstance(e.generators[0].target, ast.Name) and not e.generators[0].is_async:
+            # {k(v): f(v) for v in X if c(v)}: key, value and conditions expressed on elem<X>
+            g = e.generators[0]
+            base = self.term(g.iter, node)
+            old = getattr(self, "_comp_bound", None)
+            self._comp_bound = dict(old or {})
+            self._comp_bound[g.target.id] = ("elem", base)
+            try:
+                parts = (self.term(e.key, node), self.term(e.value, node), tuple(self.term(c, node) for c in g.ifs))
+            except AnalysisError:
+                parts = None
+            finally:
+                self._comp_bound = old
+            if parts is not None:
+                return ("mapped_dict", base, parts[0], parts[1], parts[2])
         if isinstance(e, (ast.ListComp, ast.SetComp, ast.DictComp, ast.GeneratorExp, ast.Lambda, ast.FormattedValue)):
             from .cfg import name_uses
 
@@ -509,6 +546,10 @@ def show(t: Any, depth: int = 0) -> str:
         return "{" + ", ".join(f"{show(a, depth + 1)}: {show(b, depth + 1)}" for a, b in t[1]) + "}"
     if k == "elem":
         return f"elem<{show(t[1], depth + 1)}>"
+    if k == "mapped_dict":
+        return f"{{{show(t[2], depth + 1)}: {show(t[3], depth + 1)} for {show(t[1], depth + 1)}" + (f" if {' and '.join(show(c, depth + 1) for c in t[4])}" if t[4] else "") + "}"
+    if k == "mapped":
+        return f"[{show(t[2], depth + 1)} for {show(t[1], depth + 1)}]"
     if k == "filtered":
         return f"filtered<{show(t[1], depth + 1)} if {t[2]}>"
     if k == "index":
